@@ -114,6 +114,22 @@ def modular_network(rng, max_n):
         used += k
     return "\n".join(rules)
 
+def permute_variables(rng, rules):
+    """rename x_i -> x_pi(i) with a random permutation and list the rules in name order: the variables of one gadget are no longer
+    adjacent, so the motifs of one block interleave with those of another in key order (seeded change w9_C03 needs that)"""
+    import re
+    lines = [l for l in rules.splitlines() if l.strip()]
+    names = sorted({l.split(",")[0].strip() for l in lines}, key=lambda v: int(v[1:]) if v[1:].isdigit() else 0)
+    if not all(re.fullmatch(r"x\d+", v) for v in names):
+        return rules
+    perm = names[:]
+    rng.shuffle(perm)
+    ren = dict(zip(names, perm))
+    out = [re.sub(r"x\d+", lambda m: "Q" + ren.get(m.group(0), m.group(0))[1:], l) for l in lines]
+    out = [l.replace("Q", "x") for l in out]
+    out.sort(key=lambda l: int(l.split(",")[0].strip()[1:]))
+    return "\n".join(out)
+
 def all_two_var_networks():
     nm = ["x0", "x1"]
     vals = list(itertools.product([False, True], repeat=2))
